@@ -2,6 +2,7 @@
 
 import bz2
 import json
+import collections
 import os
 import shutil
 import tempfile
@@ -127,6 +128,19 @@ def expected_map(pages, selected, ns_names):
     return m
 
 
+def optional_keys(pages, selected):
+    """Redirect pages whose content model is one of the excluded ones: the
+    statement excludes pages by content model and separately says redirects
+    keep their target; it does not say which rule wins.  Such a page may be
+    stored (as a redirect row with its target and model) or be left out."""
+    out = set()
+    for p in pages:
+        if p["ns"] in selected and p["redirect"] is not None and \
+                p["model"] not in MODELS_KEPT:
+            out.add((p["title"], p["ns"]))
+    return out
+
+
 def with_defaults(m, ns_names):
     m = dict(m)
     tp = ns_names[10] + ":"
@@ -164,7 +178,9 @@ def dump_case(draw, lang="en"):
              "text": core, "core": core}
         if kind == "redirect":
             p["redirect"] = prefix + draw(st.sampled_from(NAMES))
-            p["model"] = "wikitext"
+            # a redirect page keeps a generated model; see optional_keys()
+            if draw(st.integers(0, 2)) == 0:
+                p["model"] = "wikitext"
             p["text"] = draw(st.sampled_from([None, "#REDIRECT [[x]]"]))
         elif kind == "notext":
             p["text"] = None
@@ -181,6 +197,14 @@ def dump_case(draw, lang="en"):
         if draw(st.integers(0, 9)) == 0:
             p["comment"] = "edit <summary> & more"
         pages.append(p)
+    # a redirect page with an excluded content model may be stored or left
+    # out (optional_keys); where its title occurs twice the two readings
+    # would combine with the duplicate rule, so it is written as wikitext
+    seen_titles = collections.Counter((p["title"], p["ns"]) for p in pages)
+    for p in pages:
+        if p["redirect"] is not None and p["model"] not in MODELS_KEPT and \
+                seen_titles[(p["title"], p["ns"])] > 1:
+            p["model"] = "wikitext"
     pool = sorted(set(common) | {p["ns"] for p in pages if p["ns"] in ns_names})
     selected = set(draw(st.lists(st.sampled_from(pool or [0]), unique=True,
                                  max_size=len(pool or [0]))))
@@ -255,6 +279,9 @@ def run_case(case):
                 pass
     finally:
         shutil.rmtree(d, ignore_errors=True)
+    for k in optional_keys(case["pages"], sel):
+        if k in exp and k not in got:
+            del exp[k]
     if got == exp:
         return None
     missing = sorted(set(exp) - set(got))
@@ -381,7 +408,9 @@ def run(run):
         "unknown namespace ids are never selected",
         "'documentation / testcases subpage' is read as the code documents "
         "it: title ends with /documentation or contains /testcases",
-        "redirect pages are written with model wikitext",
+        "a redirect page with an excluded content model may be stored as a "
+        "redirect row or left out (the statement does not say which rule "
+        "wins); where its title is duplicated it is written as wikitext",
         "characters invalid in XML 1.0 are not generated; CR is written as "
         "&#13;",
     ]
